@@ -474,5 +474,5 @@ def strat_random(tier):
 
 PARTS = [
     Part("lattice", check_lattice, enumerate=enum_lattice, quick=1, thorough=1),
-    Part("random", check_random, strat_random, quick=1500, thorough=30000, min_nontrivial_frac=0.4),
+    Part("random", check_random, strat_random, quick=1500, thorough=30000, min_nontrivial_frac=0.3),
 ]
